@@ -1,5 +1,5 @@
 (* OpsCodec.v — protocol ops for the consensus codec: dec / decs / enc / rt over a table of types. *)
-From MRS Require Import Model.Base Model.Varint Model.Codec Model.CodecLen Model.Show.
+From MRS Require Import Model.Base Model.Varint Model.Codec Model.CodecLen Model.Show Spec.Wire.
 From Coq Require Import String Ascii.
 Open Scope string_scope.
 
@@ -121,6 +121,20 @@ Definition ops_codec (op : string) (args0 : list string) : option string :=
             | Some a => Some ("OK " ++ show_hex (e a) ++ " " ++ show_N (rl a))
             | None => None end
         | None => None end
+    | _ => None end
+  else if String.eqb op "spec" then
+    (* MODEL-ONLY: the Monero field-list layout of Spec/Wire.v for a description (oracle of C03) *)
+    match args with
+    | T :: ts =>
+        if String.eqb T "tx" then
+          match p_all p_tx ts with Some a => Some ("OK " ++ show_hex (spec_tx a)) | None => None end
+        else if String.eqb T "block" then
+          match p_all p_block ts with Some a => Some ("OK " ++ show_hex (spec_block a)) | None => None end
+        else if String.eqb T "prefix" then
+          match p_all p_prefix ts with Some a => Some ("OK " ++ show_hex (spec_prefix a)) | None => None end
+        else if String.eqb T "header" then
+          match p_all p_header ts with Some a => Some ("OK " ++ show_hex (spec_header a)) | None => None end
+        else None
     | _ => None end
   else if String.eqb op "rt" then
     (* serialise, parse back (partial), compare, strict parse, strict parse with one trailing byte *)
